@@ -65,14 +65,45 @@ type verifK24Inv struct {
 	tuples       []keys.VerifK24Tuple
 }
 
+// verifK24GenInv: the composition level. The parts are checked on their own in the keys package (value
+// trees: VerifK24bPbValueInjective incl. prefix-freeness; tuples and tuple sequences: VerifK24bTuple*), so
+// the shapes here are a small catalogue: context nil / empty / one string field (key and value symbolic);
+// contextual tuples: none, or up to `tuples` tuples each without condition / with a condition and nil
+// context / with a condition and a one-field context.
 func verifK24GenInv(name string, L int) verifK24Inv {
 	in := verifK24Inv{store: vt.String(name+"store", L), model: vt.String(name+"model", L)}
-	if !vt.ForkBool(name + "nilctx") {
-		in.ctx = keys.VerifPbStruct(name+"ctx", vt.Choose(name+"ctxn", vt.ParamInt("ctxfields", 1)+1), vt.ParamInt("depth", 0), []int{1}, L)
+	// fix=1 (default): every string but store and model has exactly L symbolic bytes. The length framing of
+	// the individual strings is K24a's subject; what is checked here is how the parts are put together,
+	// and symbolic lengths everywhere make the comparison of the two byte strings undecidable in practice
+	// (solver unknown after 60 s per query).
+	str := func(n string) string {
+		s := vt.String(n, L)
+		if vt.ParamInt("fix", 1) == 1 {
+			vt.Assume(len(s) == L)
+			s = s[:L]
+		}
+		return s
+	}
+	oneField := func(p string) *structpb.Struct {
+		return &structpb.Struct{Fields: map[string]*structpb.Value{str(p + "k"): structpb.NewStringValue(str(p + "v"))}}
+	}
+	switch vt.Choose(name+"ctx", 3) {
+	case 1:
+		in.ctx = &structpb.Struct{}
+	case 2:
+		in.ctx = oneField(name + "ctx")
 	}
 	n := vt.Choose(name+"n", vt.ParamInt("tuples", 1)+1)
 	for i := 0; i < n; i++ {
-		in.tuples = append(in.tuples, keys.VerifK24GenTuple(name+"t"+string(rune('0'+i)), 0, []int{1}, L))
+		p := name + "t" + string(rune('0'+i))
+		t := keys.VerifK24Tuple{Obj: str(p + "o"), Rel: str(p + "r"), User: str(p + "u")}
+		switch vt.Choose(p+"shape", 3) {
+		case 1:
+			t.HasCond, t.Cond = true, str(p+"c")
+		case 2:
+			t.HasCond, t.Cond, t.Ctx = true, str(p+"c"), oneField(p+"x")
+		}
+		in.tuples = append(in.tuples, t)
 	}
 	// request validation rejects two contextual tuples with the same object, relation and user
 	for i := range in.tuples {
@@ -117,7 +148,8 @@ func VerifK24bInvariantInjective() {
 	L := vt.ParamInt("str", 1)
 	a, b := verifK24GenInv("a", L), verifK24GenInv("b", L)
 	pa, pb := a.pre(), b.pre()
-	same := a.store == b.store && a.model == b.model && keys.VerifPbSameStruct(a.ctx, b.ctx) && verifK24SameTupleSet(a.tuples, b.tuples)
+	sameCtx, sameTuples := keys.VerifPbSameStruct(a.ctx, b.ctx), verifK24SameTupleSet(a.tuples, b.tuples)
+	same := a.store == b.store && a.model == b.model && sameCtx && sameTuples
 	vt.Reach("built")
 	if pa.same(pb) {
 		vt.Assert(same, "two semantically different invariant inputs (store, model, context, contextual tuples) have the same pre-digest bytes")
@@ -208,6 +240,9 @@ func verifK24Name(name string, L int) string {
 }
 
 func verifK24Strs(name string, max, L int, nilable bool) []string {
+	if max == 0 {
+		return nil
+	}
 	if nilable && vt.ForkBool(name+"nil") {
 		return nil
 	}
